@@ -261,6 +261,8 @@ def translate_input_file(tree):
                     if D(_load(tgt)) in dest:
                         fail(st, "the destination path is reassigned")
                     sym[D(_load(tgt))] = v
+                    if D(_load(tgt)) == E("self._temp_path") and v[0] != "TEMP":
+                        temp["parts"] = None      # the field is overwritten: no temporary for __exit__
                     if v[0] == "TEMP":
                         if D(_load(tgt)) != E("self._temp_path"):
                             fail(st, "temporary path stored somewhere else than self._temp_path")
